@@ -1,6 +1,7 @@
 package engines
 
 import (
+	"bngvet/internal/cexec"
 	"fmt"
 	"os"
 	"path/filepath"
@@ -98,6 +99,19 @@ func c07Program(c *Ctx, tu *cfront.TU, fn *cfront.Node) {
 	for _, rt := range x.Returns {
 		v, isC := rt.Val.IsConst()
 		_, okV := allowed[v]
+		if !isC && rt.Val.K == cexec.VInt && rt.Val.HasL && rt.St != nil {
+			// a verdict variable joined from several constant assignments (single exit through `goto out`): every
+			// value of its range must be a defined verdict
+			iv := rt.St.Range(rt.Val.L)
+			if iv.Hi-iv.Lo <= 8 && iv.Lo >= -1 {
+				isC, okV = true, true
+				for x := iv.Lo; x <= iv.Hi; x++ {
+					if _, ok := allowed[x]; !ok {
+						okV = false
+					}
+				}
+			}
+		}
 		name := k.name(fn.Name, cfront.Render(rt.Node)+" ["+guardOf(rt.Node)+"]")
 		r.Check("C07.verdict", fn.Name, "verdict of "+name, rt.Node.Pos(), isC && okV, "the returned value is not one of the defined verdict constants: "+rt.Val.String())
 		if !okPol {
